@@ -227,7 +227,8 @@ def decode_inputs():
 
 def run_shard(desc, seed, rec, tier):
     if desc["part"] == "encode":
-        strat = st.one_of(vals.immutables(), vals.immutables(), vals.non_dumpables())
+        huge = st.one_of(vals.huge_ints(), vals.huge_ints().map(lambda s: ["tuple", [["int", "1"], s]]))
+        strat = st.one_of(vals.immutables(), vals.immutables(), vals.non_dumpables(), huge)
         drive(rec, strat, lambda spec: check_encode(spec, rec), desc["n"], seed)
     elif desc["part"] == "alltags":
         import hashlib
